@@ -102,6 +102,9 @@ def random_case(rng, tier):
             "start": rng.choice(["fresh", "read"])}
 
 
+META_VALUES = ["v", 0, 7, 0.0, "", "0", 45.5, -0.0, "45 310 01 00"]
+
+
 class Model:
     def __init__(self):
         self.c = []   # dicts: orig, unit, value, descr, data
@@ -197,13 +200,19 @@ class Run:
             if kind == "append":
                 nm, a = self.name(op[1]), self.arr()
                 resolved = ("append", op[1])
-                m_insert(m, len(m), {"orig": nm, "unit": "u%d" % self.k, "value": "v", "descr": "d%d" % self.k, "data": a.copy()}, self.norm)
-                las.append_curve(nm, a, unit="u%d" % self.k, descr="d%d" % self.k, value="v")
+                v = META_VALUES[self.k % len(META_VALUES)]          # the API code may be int / float / str, falsy values included
+                m_insert(m, len(m), {"orig": nm, "unit": "u%d" % self.k, "value": v, "descr": "d%d" % self.k, "data": a.copy()}, self.norm)
+                las.append_curve(nm, a, unit="u%d" % self.k, descr="d%d" % self.k, value=v)
             elif kind == "insert":
                 ix, nm, a = self.pos(op[1], n), self.name(op[2]), self.arr()
                 resolved = ("insert", _cls(ix, n), op[2])
-                m_insert(m, ix, {"orig": nm, "unit": "", "value": "", "descr": "i%d" % self.k, "data": a.copy()}, self.norm)
-                las.insert_curve(ix, nm, a, descr="i%d" % self.k)
+                v = META_VALUES[(self.k + 3) % len(META_VALUES)]
+                if self.k % 2:
+                    m_insert(m, ix, {"orig": nm, "unit": "", "value": v, "descr": "i%d" % self.k, "data": a.copy()}, self.norm)
+                    las.insert_curve(ix, nm, a, descr="i%d" % self.k, value=v)
+                else:
+                    m_insert(m, ix, {"orig": nm, "unit": "", "value": "", "descr": "i%d" % self.k, "data": a.copy()}, self.norm)
+                    las.insert_curve(ix, nm, a, descr="i%d" % self.k)
             elif kind == "delete_ix":
                 ix = self.pos(op[1], n)
                 resolved = ("delete_ix", _cls(ix, n))
